@@ -108,9 +108,15 @@ impl<'h> FindMatchesImpl<'h> {
         let mut mode_switch = false;
         let mut new_mode = 0;
         for _ in 0..n {
-            let result = self
-                .scanner_impl
-                .peek_from(&self.input[self.offset..], char_indices.clone());
+            // Like `next_match`, skip characters no pattern matches.
+            let result = loop {
+                let result = self
+                    .scanner_impl
+                    .peek_from(&self.input[self.offset..], char_indices.clone());
+                if result.is_some() || char_indices.next().is_none() {
+                    break result;
+                }
+            };
             if let Some(mut matched) = result {
                 let token_type = matched.token_type();
                 Self::advance_char_indices_beyond_match(&mut char_indices, matched);
